@@ -81,4 +81,28 @@ theorem C13_executable_iterator (vals : List Cost) (starts : List Nat) (lq overl
 example : kbestRun [0, 0, 1, 2, 3, 5] 2 0 (some 2) none (some 2) 20
     (kbestInit [.fin 5, .fin 1, .fin 3, .fin 0, .fin 4, .fin 2] 2 0) 0 = [(2, 3), (0, 1)] := by decide
 
+/-- **The other entry points of the iterator** (`best_matches` with a range factor, `best_matches_knee`
+with a knee detector) run the same loop with an extra stopping rule that looks only at the candidate values
+seen so far: whatever that rule is, they yield a prefix of the matches of the unlimited iterator with the same
+overlap and length limits — so every invariant of C13 (distinct end points, order, length limits, overlap)
+carries over. -/
+theorem C13_stop_rule_prefix (stop : List (Nat × Cost) → Nat → Cost → Bool) (starts : List Nat) (lq overlap : Nat)
+    (minlen maxlen k : Option Nat) (fuel : Nat) (slots : List (Slot Cost)) (ki : Nat) (hist : List (Nat × Cost)) :
+    kbestRunStop stop starts lq overlap minlen maxlen k fuel slots ki hist <+:
+      kbestRun starts lq overlap minlen maxlen k fuel slots ki :=
+  kbestRunStop_prefix stop starts lq overlap minlen maxlen k fuel slots ki hist
+
+theorem C13_stop_rule_never (starts : List Nat) (lq overlap : Nat) (minlen maxlen k : Option Nat) (fuel : Nat)
+    (slots : List (Slot Cost)) (ki : Nat) (hist : List (Nat × Cost)) :
+    kbestRunStop (fun _ _ _ => false) starts lq overlap minlen maxlen k fuel slots ki hist =
+      kbestRun starts lq overlap minlen maxlen k fuel slots ki :=
+  kbestRunStop_never starts lq overlap minlen maxlen k fuel slots ki hist
+
+/- non-vacuity: a range factor that really cuts the iteration short (values 1, 2, 9; factor² = 4) -/
+example : kbestRunStop (rangeStop 4 1) [0, 1, 2, 3, 4, 5] 1 0 (some 1) none none 20
+    [Slot.val (.fin 1), Slot.blocked, Slot.val (.fin 2), Slot.blocked, Slot.val (.fin 9), Slot.blocked] 0 [] = [(0, 0), (2, 2)] ∧
+  kbestRun [0, 1, 2, 3, 4, 5] 1 0 (some 1) none none 20
+    [Slot.val (.fin 1), Slot.blocked, Slot.val (.fin 2), Slot.blocked, Slot.val (.fin 9), Slot.blocked] 0 = [(0, 0), (2, 2), (4, 4)] := by
+  decide +kernel
+
 end Dtai
